@@ -41,7 +41,7 @@ import (
 )
 
 func init() {
-	lib.Register(&lib.Prop{ID: "C20", Level: "exploration", Run: run})
+	lib.Register(&lib.Prop{ID: "C20", Level: "exploration", Run: run, Sub: map[string]func([]string) int{"stderrlog": stderrChild}})
 }
 
 const (
@@ -1178,6 +1178,9 @@ func run(c *lib.Ctx) {
 		c.Count("broken_floor", 1)
 		return
 	}
+	// first the phase that needs a process of its own (an instance whose logs
+	// go to the process's standard error)
+	stderrLogPhase(c, root)
 	rounds := c.Pick(3, 60)
 	nsites := 16
 	perOutcome := c.Pick(4, 5)
@@ -1282,6 +1285,7 @@ func run(c *lib.Ctx) {
 	c.Set("distinct_formats", len(formats))
 	c.Set("requests_issued", issued)
 	h2Phase(c, root)
+	c.Floor("stderr_log_requests_completed", 10)
 	c.Floor("tls_requests_judged_h2", 5)
 
 	// a run that saw too little proves nothing
